@@ -109,13 +109,42 @@ def hypJ (W : World) (T : Target) (v : View) : Json :=
 def orderOKB (T : Target) (v : View) : Bool :=
   v.nodes == (dedupLast T.nodes).filter (fun n => v.nodes.contains n)
 
+def isOkE {α : Type} : Except Err α → Bool
+  | .ok _ => true
+  | .error _ => false
+
+/-- the instance of `C18_extract_succeeds_iff` / `C18_extract_owned` for one cut that passes the argument checks
+    and has a first output with a graph: the decidable hypotheses, the two sides of the equivalence, the outcome
+    of the pipeline without the ownership checks -/
+def iffJ (W : World) (T : Target) (ins outs : List Arg) : Json :=
+  let m := valueMapping W T
+  match checkArgs W T m (ins ++ outs) with
+  | .error _ => Json.null
+  | .ok () =>
+    let I := ins.map (resolveArg m)
+    let O := outs.map (resolveArg m)
+    match O with
+    | [] => Json.null
+    | o :: _ =>
+      match W.graphOf o with
+      | none => Json.null
+      | some p =>
+        let fn := T.kind == Kind.function
+        obj [("hyp", toJson (regionHypB W T p I O)), ("covered", toJson (coveredB W fn I O p)),
+             ("needed", toJson (neededInB W fn T.nodes I O p)),
+             ("plain", toJson (isOkE (extract W T ins outs)))]
+
 def runJ (W : World) (T : Target) (ins outs : List Arg) : Json :=
-  match extract W T ins outs with
-  | .error e => errJ e
+  match extractO W T ins outs with
+  | .error e =>
+    obj [("r", Json.str "raised"), ("kind", Json.str (reprStr e)), ("py", Json.str e.pyClass),
+         ("iff", iffJ W T ins outs)]
   | .ok v => obj [("r", Json.str "ok"), ("inputs", natsJ v.inputs), ("outputs", natsJ v.outputs),
                   ("nodes", natsJ v.nodes), ("inits", natsJ (canonSet v.inits)),
                   ("rewired", natsJ (canonSet (rewired W v))), ("hyp", hypJ W T v),
-                  ("orderOK", toJson (orderOKB T v)), ("dupNodes", toJson (!nodupB T.nodes))]
+                  ("orderOK", toJson (orderOKB T v)), ("dupNodes", toJson (!nodupB T.nodes)),
+                  ("iff", iffJ W T ins outs),
+                  ("nr", toJson (nrGB [] (.mk 0 v.inputs v.inits v.outputs (v.nodes.map W.nodeD))))]
 
 def handle : Handler := fun m j =>
   match m with
